@@ -1016,6 +1016,17 @@ def contains(interp, container, x):
         impl = METHODS.get((kind, "__contains__"))
         if impl is not None:
             return impl(interp, container, [x], {})
+        fo = getattr(container, "filter_of", None) if isinstance(container, Vec) else None
+        if fo is not None and container.buf.writes == 0 and isinstance(x, Num) and x.is_int:
+            # the ascending enumeration of {i < length : cond(i)} (library contract of filter_indices): membership is the
+            # defining condition itself -- quantifier-free
+            xz = zint(x.z)
+            ctx.binder_stack.append([])
+            try:
+                cz = fo[1](xz)
+            finally:
+                ctx.binder_stack.pop()
+            return Bool(z3.And(xz >= 0, xz < zint(fo[0]), cz))
         if isinstance(container, Vec):
             # membership in a symbolic-length sequence: exists k
             k = z3.Int(ctx.fresh("mem"))
